@@ -14,6 +14,8 @@ shapes  — (each a Bool / small enum the Lean model branches on; the theorems a
     `finally` inside the output stream (before EOS); a coercion failure releases the just-resolved region
   * `_drain_stream(shm=…)` frees skipped pointer batches (refused-stream input, tail of `_serve_stream`); `_drain_output`
     releases the batches it steps over
+  * `_deserialize_from_shm`: both paths read through `ipc.open_stream(...).read_next_batch()` (dictionary messages of nested
+    dictionary children are consumed); the dictionary path's schema message is rebuilt per call (no cache keyed on Schema ==)
   * `_flush_collector` / `_write_result_batch`: every batch goes through `maybe_write_to_shm` when a segment is present
   * `StreamSession._write_batch`: inputs go through `maybe_write_to_shm`; `_read_response` / `_read_batch_with_log_check`
     resolve through `resolve_shm_batch` and attach the release function to the returned `AnnotatedBatch`
@@ -196,6 +198,26 @@ def _drain_shape(wire_t: ast.AST, srv_t: ast.AST, cli_t: ast.AST) -> dict[str, b
     return res
 
 
+def _deserialize_shape(tree: ast.AST) -> dict[str, bool]:
+    """`_deserialize_from_shm`: both paths decode through a *stream reader* (`ipc.open_stream(...).read_next_batch()`), which
+    consumes dictionary messages wherever the dictionary type sits (top level or nested); the schema message the dictionary
+    path prepends is built from the schema it is handed on every call — no memoisation keyed on `Schema` equality, which
+    ignores metadata."""
+    res = {"stream_reader": False, "uncached": False}
+    fn = _find(tree, "_deserialize_from_shm")
+    if fn is None:
+        return res
+    opens = _calls(fn, "open_stream")
+    direct = _calls(fn, "read_record_batch") + _calls(fn, "read_message")
+    res["stream_reader"] = len(opens) == 2 and not direct and len(_calls(fn, "read_next_batch")) == 2
+    # every helper the function calls that lives in shm.py must be undecorated (no lru_cache / cache), as must the function itself
+    local = {n.name: n for n in ast.walk(tree) if isinstance(n, ast.FunctionDef)}
+    called = {c.func.id for c in ast.walk(fn) if isinstance(c, ast.Call) and isinstance(c.func, ast.Name)} & set(local)
+    res["uncached"] = not fn.decorator_list and all(not local[n].decorator_list for n in called) and \
+        "new_ipc_stream(schema_sink, schema)" in _src(fn)
+    return res
+
+
 def _routes_all(fn: ast.FunctionDef | None) -> bool:
     """`if shm is not None:` branch that calls maybe_write_to_shm"""
     if fn is None:
@@ -259,6 +281,7 @@ def emit() -> dict[str, str]:
     result_routes = _routes_all(_find(wire_t, "_write_result_batch"))  # type: ignore[arg-type]
     input_routes = _routes_all(_find(cli_t, "StreamSession", "_write_batch"))  # type: ignore[arg-type]
     dsh = _drain_shape(wire_t, srv_t, cli_t)
+    des = _deserialize_shape(shm_t)
     reader_rel = _reader_attaches_release(_find(wire_t, "_read_batch_with_log_check"))  # type: ignore[arg-type]
 
     lines = [
@@ -302,6 +325,9 @@ def emit() -> dict[str, str]:
         "/-- batches that are drained instead of read: server drains free pointer inputs; the client's `_drain_output` releases -/",
         f"def drainFreesPointers : Bool := {_b(dsh['drain_frees'])}",
         f"def clientDrainReleases : Bool := {_b(dsh['client_drain_releases'])}",
+        "/-- `_deserialize_from_shm`: stream reader on both paths; the prepended schema message is rebuilt from the given schema -/",
+        f"def deserializeStreamReader : Bool := {_b(des['stream_reader'])}",
+        f"def schemaMessageUncached : Bool := {_b(des['uncached'])}",
         "/-- senders: every batch passes through `maybe_write_to_shm` when a segment is present -/",
         f"def flushRoutes : Bool := {_b(flush_routes)}",
         f"def resultRoutes : Bool := {_b(result_routes)}",
